@@ -249,13 +249,14 @@ class RefCache:
 
 
 class RefDeque:
-    """collections.deque semantics (no maxlen)."""
+    """collections.deque semantics (maxlen: a full deque discards from the other end, atomically with the push)."""
 
-    def __init__(self, items=None):
+    def __init__(self, items=None, maxlen=None):
         self.items = list(items or [])
+        self.maxlen = maxlen
 
     def copy(self):
-        return RefDeque(self.items)
+        return RefDeque(self.items, self.maxlen)
 
     def key(self):
         return tuple(repr(x) for x in self.items)
@@ -265,16 +266,21 @@ class RefDeque:
         d = self.items
         if op == 'append':
             d.append(call['value'])
+            if self.maxlen is not None and len(d) > self.maxlen:
+                d.pop(0)
             return None
         if op == 'appendleft':
             d.insert(0, call['value'])
+            if self.maxlen is not None and len(d) > self.maxlen:
+                d.pop()
             return None
         if op == 'extend':
-            d.extend(call['values'])
+            for v in call['values']:
+                self.apply({'op': 'append', 'value': v})
             return None
         if op == 'extendleft':
             for v in call['values']:
-                d.insert(0, v)
+                self.apply({'op': 'appendleft', 'value': v})
             return None
         if op in ('pop', 'popleft', 'peek', 'peekleft'):
             if not d:
@@ -513,8 +519,8 @@ def actions_of_calls(calls):
     acts = []
     for recs in calls:
         for r in recs:
-            if r.get('skipped') or r.get('pending') or r['op'] in concdrv.BLOCK_OPS:
-                continue
+            if r.get('skipped') or r.get('pending') or r['op'] in concdrv.BLOCK_OPS or r['op'] in concdrv.ITER_OPS:
+                continue            # (a suspended iteration is not one atomic read: finding C05-F1; the calls made while it is suspended are checked)
             if r.get('first') is None:
                 continue
             acts.append(Action('%d.%d' % (r['client'], r['index']), r['client'], r['first'], r['last'], [(r['call'], observed_of(r))]))
@@ -685,6 +691,10 @@ def gen_call(rng, tag, keys=('a', 'b')):
 def gen_program(rng, nclients=None):
     n = nclients or rng.choices([2, 3, 4], [55, 30, 15])[0]
     progs = [[gen_call(rng, '%d%d' % (i, j)) for j in range(rng.choices([1, 2, 3], [30, 40, 30])[0])] for i in range(n)]
+    for i in range(n):
+        if rng.random() < 0.12:
+            # the client's calls are made from inside the body of `for key in cache:` (the iterator stays suspended meanwhile)
+            progs[i] = [{'op': 'iter_open', 'n': 1, 'how': rng.choice(['iter', 'iter', 'reversed', 'iterkeys'])}] + progs[i] + [{'op': 'iter_rest'}]
     setup = []
     for k in ('a', 'b'):
         c = rng.random()
@@ -865,6 +875,19 @@ def run_corpus(ctx, res, stats, per_program, exhaustive_limit):
     before = stats['anomalies']
     one_case(ctx, res, stats, programs, setup, D12_SCHEDULE, 'own', 'corpus:D12-schedule', expect=expect)
     stats['d12_schedule_anomaly_seen'] = stats['anomalies'] > before
+    # lookups and writes made from inside the body of `for key in cache:` while another client completes writes in between
+    for how in ('iter', 'reversed', 'iterkeys'):
+        programs = [[{'op': 'iter_open', 'n': 1, 'how': how}, {'op': 'get', 'key': 'x'}, {'op': 'get', 'key': 'big'}, {'op': 'contains', 'key': 'c'},
+                     {'op': 'get', 'key': 'c'}, {'op': 'incr', 'key': 'n', 'retry': False}, {'op': 'iter_rest'}],
+                    [{'op': 'set', 'key': 'x', 'value': 'new', 'retry': True}, {'op': 'set', 'key': 'big', 'value': BIG2, 'retry': True},
+                     {'op': 'incr', 'key': 'c', 'retry': True}]]
+        setup = [{'op': 'set', 'key': 'p', 'value': 0}, {'op': 'set', 'key': 'q', 'value': 0}, {'op': 'set', 'key': 'x', 'value': 'old'},
+                 {'op': 'set', 'key': 'big', 'value': BIG1}]
+        for k in (1, 2, 3, 4, 6):
+            for mode in ('own', 'shared'):
+                one_case(ctx, res, stats, programs, setup, [0] * k + [1] * 200 + [0] * 200, mode, 'corpus:inside-loop:%s:%d' % (how, k), record=False)
+                if enough(res):
+                    return
     # witness of the torn iteration (finding iter_not_atomic): MAX(rowid) read, then b inserted and a deleted, then the page read
     programs, setup, schedule = ITER_WITNESS
     v = one_case(ctx, res, stats, programs, setup, schedule, 'own', 'corpus:iter-witness')
